@@ -3,17 +3,17 @@
 // Built with the race detector (the dispatcher builds cmd/*-race with `go build -race`,
 // CGO_ENABLED=1).  Every round, in a child process with GORACE="halt_on_error=1 exitcode=66":
 //
-//   * one generated module set is loaded and processed sequentially: the shared set;
-//   * an identical copy is processed sequentially and queried sequentially with the reader
+//   - one generated module set is loaded and processed sequentially: the shared set;
+//   - an identical copy is processed sequentially and queried sequentially with the reader
 //     script: the expected answers;
-//   * N goroutines (8 quick / 32 thorough) are released together: N/2 run the full pipeline
+//   - N goroutines (8 quick / 32 thorough) are released together: N/2 run the full pipeline
 //     (NewModules, Parse of 2-4 generated modules and a submodule, Process, ToEntry, walk, dump)
 //     each on a module set of its own; N/2 run the reader script against the shared set,
 //     beginning with the namespace look-ups, so that the first-time (uncached) look-ups of all
 //     readers meet;
-//   * every pipeline dump is compared with the dump of a sequential run of the same sources,
+//   - every pipeline dump is compared with the dump of a sequential run of the same sources,
 //     every reader answer with the expected answer;
-//   * the conditions that put the allow-listed write sites (harness/cmd/extract-access/
+//   - the conditions that put the allow-listed write sites (harness/cmd/extract-access/
 //     allow.json) outside the claim are asserted: ToEntry of a processed module returns the entry
 //     cached by Process; Find is called with paths of existing nodes only and afterwards no root
 //     has more errors and no rpc has a different input/output entry; the module tables of the
@@ -534,6 +534,10 @@ type roundResult struct {
 	Modules     int      `json:"modules"`
 	WithErrors  bool     `json:"with_errors"`
 	SharedErrs  int      `json:"shared_errors"`
+	// UnexpectedErrs: a set generated as valid did not process cleanly; SeqAnomalies: sequential
+	// answers that are wrong look-ups or panics (not C19's subject; the reference all the same)
+	UnexpectedErrs bool `json:"unexpected_errors"`
+	SeqAnomalies   int  `json:"sequential_anomalies"`
 }
 
 func roundSeed(seed int64, round int) int64 { return seed*1000003 + int64(round)*7919 + 17 }
@@ -569,8 +573,14 @@ func doRound(seed int64, round, n int) roundResult {
 	want := make([]string, len(ops))
 	for i, o := range ops {
 		want[i] = run(refMS, refRoots, o)
-		if strings.HasPrefix(want[i], "HARNESS") || strings.HasPrefix(want[i], "GUARD") || strings.HasPrefix(want[i], "Find returned") {
+		switch {
+		case strings.HasPrefix(want[i], "GUARD"):
+			// a guard of the allow-list fires on an input the property speaks about
 			res.Problems = append(res.Problems, fmt.Sprintf("sequential run: %s -> %s", o, want[i]))
+		case strings.HasPrefix(want[i], "HARNESS"), strings.HasPrefix(want[i], "Find returned"), strings.HasPrefix(want[i], "PANIC"):
+			// wrong or crashing look-ups are other properties' business (C17, C01); here the
+			// sequential answer is the reference whatever it is.  Counted, not reported.
+			res.SeqAnomalies++
 		}
 	}
 	res.Ops = len(ops)
@@ -580,7 +590,10 @@ func doRound(seed int64, round, n int) roundResult {
 	shMS, shErrs := load(shared)
 	res.SharedErrs = len(shErrs)
 	if !withErrors && len(shErrs) > 0 {
-		res.Problems = append(res.Problems, fmt.Sprintf("HARNESS: generated set does not process cleanly: %q", shErrs))
+		// the generator meant this set to be valid; the comparison with the sequential run is
+		// still meaningful, but the round does not count as non-trivial
+		res.UnexpectedErrs = true
+		res.Nontrivial = false
 	}
 	shRoots := map[string]*yang.Entry{}
 	for _, name := range modNames(shMS) {
@@ -798,7 +811,7 @@ func main() {
 		"goroutines/2 pipelines run on sets of their own; evaluations = reader answers and pipeline dumps compared with the sequential run"
 	distinct := lib.NewDistinct()
 	var mu sync.Mutex
-	var nodes, ops, firstNS, mods, withErr, roundsDone int64
+	var nodes, ops, firstNS, mods, withErr, roundsDone, unexpected, anomalies int64
 	type job struct{ from, to int }
 	jobs := make(chan job)
 	var wg sync.WaitGroup
@@ -826,6 +839,10 @@ func main() {
 					if rr.WithErrors {
 						withErr++
 					}
+					if rr.UnexpectedErrs {
+						unexpected++
+					}
+					anomalies += int64(rr.SeqAnomalies)
 					if rr.Nontrivial {
 						distinct.Add(rr.SharedHash)
 					}
@@ -883,6 +900,11 @@ func main() {
 	res.Distribution["readers_per_round"] = n - n/2
 	res.Distribution["pipelines_per_round"] = n / 2
 	res.Distribution["shared_sets_with_process_errors"] = withErr
+	res.Distribution["shared_sets_unexpectedly_rejected"] = unexpected
+	res.Distribution["sequential_answers_that_are_wrong_lookups_or_panics"] = anomalies
+	if roundsDone > 0 && unexpected*2 > roundsDone {
+		lib.Fatal("the generator is out of date: %d of %d module sets meant to be valid do not process cleanly", unexpected, roundsDone)
+	}
 	if roundsDone > 0 {
 		res.Distribution["avg_modules_per_shared_set"] = float64(mods) / float64(roundsDone)
 		res.Distribution["avg_nodes_per_shared_set"] = float64(nodes) / float64(roundsDone)
